@@ -1,4 +1,5 @@
 import BGV.Proofs.IterD
+import BGV.Proofs.IterU
 import BGV.Proofs.Directed
 /-!
 # Property C08 — vertex and edge enumeration visit everything exactly once on every graph shape
@@ -87,6 +88,53 @@ theorem C08_enumeration_defined (g : G L) (hg : Inv g) :
   constructor
   · simp only [dGetInDegrees, this, if_true]; exact ⟨_, rfl⟩
   · simp only [dGetAdjacencyMatrix, this, if_true]; exact ⟨_, rfl⟩
+
+/-! ## undirected classes: the skipping iterator -/
+
+/-- the undirected `edges()` traversal (skip-empty loop, then skip entries whose vertex exceeds
+the neighbour) yields exactly the entries `(i,j)`, `i ≤ j`, of the flattened lists, in order —
+on every symmetric graph of every size (zero vertices, no edges, isolated ends included) -/
+theorem C08_uEdges (g : G L) (hg : UInv g) : g.uEdges = g.edgeSeq.filter keep :=
+  uEdges_eq g hg.base.len hg.sym
+
+/-- one orientation per undirected edge, once per self-loop: `(i,j)` is enumerated iff `i ≤ j`
+and `{i,j}` is an edge -/
+theorem C08_mem_uEdges (g : G L) (hg : UInv g) (i j : Nat) :
+    (i, j) ∈ g.uEdges ↔ i ≤ j ∧ g.hasEdgeRaw i j = true := by
+  rw [C08_uEdges g hg, List.mem_filter, mem_edgeSeq g hg.base.len, mem_nb_iff]
+  simp only [keep, decide_eq_true_eq]
+  exact And.comm
+
+/-- … exactly once -/
+theorem C08_uEdges_nodup (g : G L) (hg : UInv g) : g.uEdges.Nodup := by
+  rw [C08_uEdges g hg]
+  apply List.Nodup.sublist List.filter_sublist
+  simp only [edgeSeq, List.Nodup]
+  rw [List.pairwise_flatMap]
+  constructor
+  · intro a _
+    rw [List.pairwise_map]
+    exact (hg.base.nodup a).imp (fun hne h => hne (Prod.mk.inj h).2)
+  · have := List.nodup_range (n := g.size)
+    refine this.imp ?_
+    intro a b hab x hx y hy hxy
+    simp only [List.mem_map] at hx hy
+    obtain ⟨_, _, rfl⟩ := hx
+    obtain ⟨_, _, rfl⟩ := hy
+    exact hab (Prod.mk.inj hxy).1
+
+/-- the traversal has exactly `getEdgeNumber()` elements -/
+theorem C08_uEdges_length (g : G L) (hg : UInv g) : g.uEdges.length = g.edgeNumber := by
+  rw [C08_uEdges g hg, hg.base.count]
+  simp only [edgeSeq, uCount, cnt, List.filter_flatMap, List.length_flatMap]
+  congr 1
+  apply List.map_congr_left
+  intro i _
+  rw [List.filter_map, List.length_map]
+  congr 1
+
+example : (⟨false, 4, [[1, 3], [0, 1], [], [0]], 3, []⟩ : G Nat).uEdges = [(0, 1), (0, 3), (1, 1)] := by decide
+example : (G.new false 0 : G Nat).uEdges = [] ∧ (G.new false 3 : G Nat).uEdges = [] := by decide
 
 example : (G.new false 0 : G Nat).dEdges = [] ∧ (G.new false 0 : G Nat).itBegin = (G.new false 0 : G Nat).itEnd := by decide
 example : (⟨false, 4, [[], [3, 1], [], [0]], 3, []⟩ : G Nat).dEdges = [(1, 3), (1, 1), (3, 0)] := by decide
